@@ -336,6 +336,34 @@ func judgeC14(in []byte, _ string, _ int) string {
 		if strings.ReplaceAll(render(bytes.ReplaceAll(in, []byte("\n"), []byte("\r")), true), "\r", "\n") != h {
 			return "C14-cr"
 		}
+		// the same through the streaming entry point, delivered one byte at a time
+		crlf := bytes.ReplaceAll(in, []byte("\n"), []byte("\r\n"))
+		if len(crlf) < 400 {
+			rd := &scriptReader{data: append([]byte(nil), crlf...), final: io.EOF}
+			for i := 0; i < len(crlf)+2; i++ {
+				rd.caps = append(rd.caps, 1)
+			}
+			p := cm.NewBlockParser(rd)
+			var sb []*cm.RootBlock
+			for {
+				b, err := p.NextBlock()
+				if err != nil {
+					break
+				}
+				sb = append(sb, b)
+			}
+			refs := make(cm.ReferenceMap)
+			for _, b := range sb {
+				refs.Extract(b.Source, b.AsNode())
+			}
+			ip := &cm.InlineParser{ReferenceMatcher: refs}
+			for _, b := range sb {
+				ip.Rewrite(b)
+			}
+			if strings.ReplaceAll(renderBlocks(sb, refs, true), "\r\n", "\n") != h {
+				return "C14-crlf-stream"
+			}
+		}
 	}
 	// padding clause: blank lines in front shift offsets and line numbers only
 	for _, pre := range []string{"\n", "  \n\n", "\r\n \t\n"} {
